@@ -7,15 +7,18 @@
       [fail = V false true false] (test error), [ierr] (internal error), [warn] (true with
       a test error); for the (bool, error) Boot Guard verdicts [good = pass], [bad = fail].
     - [fent = (type, address, size field, version)]: one FIT entry header; [ft fa fs fv] its
-      projections; a type-7 (BIOS startup module, "IBB") or type-2 (startup ACM) entry denotes
-      the half-open range [[fa e, fa e + 16 * fs e)] on unbounded integers.
+      projections; a type-7 entry (BIOS startup module, "IBB") denotes the half-open range
+      [[fa e, fa e + 16 * fs e)] on unbounded integers, a type-2 entry (startup ACM) the range
+      [[fa e, fa e + s)] where [s] is the size its module header states in physical memory.
+      [mem : physmem]: that memory as the size reader sees it (address of a size field -> value);
+      [dsz mem e]: getFITDataSize - [Ok s], or an error ([Err]) when an ACM header cannot be read
+      (address not below 4 GiB, no memory there) or the range of the entry leaves the 64-bit
+      address space; the error becomes the internal error of the check.
       [overlapZ a1 s1 a2 s2]: the ranges [[a1,a1+s1)] and [[a2,a2+s2)] share a point.
       [containsZ a s lo hi]: [[lo,hi)] lies inside [[a,a+s)].
       [l = l1 ++ e1 :: l2 ++ e2 :: l3]: e1 is listed before e2 in the table l.
-      [all_iv_ok l]: no entry's range reaches 2^64; [fent_typed e]: fields in the range of
-      their Go types (uint64 address, 24-bit size); [apart e1 e2]: neither empty nor touching.
-    - [dsz_real]: getFITDataSize as it behaves (panics for every startup ACM entry, finding
-      C05-FIT-ACM-size-panic); [dsz_total]: the same with that repaired.
+      [typed_table l]: the fields of every entry are in the range of their Go types (uint64
+      address, 24-bit size); [ibbs_in_space l]: no BIOS startup module reaches 2^64.
     - TXT registers are uint32 values ([u32]); [heap_spec], [dpr_spec]: the containment
       conditions the checks print in their error texts, on unbounded integers; the DPR
       register encodes size [bits dpr 4 255] MiB and top [bits dpr 20 4095 + 1] MiB.
@@ -32,131 +35,152 @@
       [insecure_alg a]: SHA1, Null or unset.
     Suffixes: [_partial] needs the extra hypothesis named in its comment; [_refuted] is a
     closed witness that the statement as written in the property fails on the code (listed in
-    KNOWN_FINDINGS.json under the id given in the comment). *)
+    KNOWN_FINDINGS.json under the id given in the comment).  Theorems about "the former
+    witness" of a repaired finding evaluate the model on the input that used to fail. *)
 From CSS Require Import Lib.Base Model.Verdicts Proofs.Verdicts.
 Local Open Scope Z_scope.
 
 (** * 1. FIT range checks against exact interval arithmetic *)
 
-(** NoIBBOverlap never panics and always gives a verdict. *)
-Theorem C05_NoIBBOverlap_total : forall l,
-  no_ibb_overlap dsz_real l = pass \/ no_ibb_overlap dsz_real l = fail.
+(** NoIBBOverlap never panics. *)
+Theorem C05_NoIBBOverlap_total : forall mem l,
+  no_ibb_overlap (dsz mem) l <> VPanic.
 Proof. exact NoIBBOverlap_total. Qed.
 Print Assumptions C05_NoIBBOverlap_total.
 
-(** Sound: a pass means no two BIOS startup modules share a byte.
-    PARTIAL: no range reaches 2^64 (see [C05_NoIBBOverlap_wrap64_refuted]). *)
-Theorem C05_NoIBBOverlap_sound_partial : forall l, all_iv_ok l ->
-  no_ibb_overlap dsz_real l = pass ->
+(** Sound for EVERY table (entries in the range of their Go types): a pass means that no two
+    BIOS startup modules share a byte.  Ranges that leave the 64-bit address space included:
+    getFITDataSize rejects them (former finding C05-FIT-overlap-wrap64). *)
+Theorem C05_NoIBBOverlap_sound : forall mem l, typed_table l ->
+  no_ibb_overlap (dsz mem) l = pass ->
   forall l1 e1 l2 e2 l3, l = l1 ++ e1 :: l2 ++ e2 :: l3 ->
     ft e1 = T_IBB -> ft e2 = T_IBB ->
     ~ overlapZ (fa e1) (fs e1 * 16) (fa e2) (fs e2 * 16).
-Proof. exact NoIBBOverlap_sound_partial. Qed.
-Print Assumptions C05_NoIBBOverlap_sound_partial.
+Proof. exact NoIBBOverlap_sound. Qed.
+Print Assumptions C05_NoIBBOverlap_sound.
 
-(** Exact.  PARTIAL: additionally the modules are pairwise [apart] (adjacent or empty
-    modules are reported as overlapping: [C05_NoIBBOverlap_adjacent_refuted]). *)
-Theorem C05_NoIBBOverlap_exact_partial : forall l, all_iv_ok l ->
-  (forall l1 e1 l2 e2 l3, l = l1 ++ e1 :: l2 ++ e2 :: l3 -> ft e1 = T_IBB -> ft e2 = T_IBB -> apart e1 e2) ->
-  (no_ibb_overlap dsz_real l = pass <->
+(** Exact; modules that only touch are disjoint (former finding C05-NoIBBOverlap-adjacent).
+    PARTIAL: the modules are non-empty and stay inside the 64-bit address space (an empty module
+    strictly inside another one is reported as overlapping; a module beyond 2^64 is an internal
+    error). *)
+Theorem C05_NoIBBOverlap_exact_partial : forall mem l, typed_table l ->
+  (forall e, In e l -> ft e = T_IBB -> 0 < fs e /\ fa e + fs e * 16 < W64) ->
+  (no_ibb_overlap (dsz mem) l = pass <->
    forall l1 e1 l2 e2 l3, l = l1 ++ e1 :: l2 ++ e2 :: l3 -> ft e1 = T_IBB -> ft e2 = T_IBB ->
      ~ overlapZ (fa e1) (fs e1 * 16) (fa e2) (fs e2 * 16)).
 Proof. exact NoIBBOverlap_exact_partial. Qed.
 Print Assumptions C05_NoIBBOverlap_exact_partial.
 
-(** finding C05-NoIBBOverlap-adjacent *)
-Theorem C05_NoIBBOverlap_adjacent_refuted :
-  exists l, all_iv_ok l /\
-    (forall e1 e2, In e1 l -> In e2 l -> e1 <> e2 -> ~ overlapZ (fa e1) (fs e1 * 16) (fa e2) (fs e2 * 16)) /\
-    no_ibb_overlap dsz_real l = fail.
-Proof. exact NoIBBOverlap_adjacent_refuted. Qed.
-Print Assumptions C05_NoIBBOverlap_adjacent_refuted.
+(** the former witness of C05-NoIBBOverlap-adjacent: the back-to-back layout passes *)
+Theorem C05_NoIBBOverlap_adjacent : forall mem, no_ibb_overlap (dsz mem) fit_adjacent = pass.
+Proof. exact NoIBBOverlap_adjacent_accepted. Qed.
+Print Assumptions C05_NoIBBOverlap_adjacent.
 
-(** finding C05-FIT-overlap-wrap64 *)
-Theorem C05_NoIBBOverlap_wrap64_refuted :
-  exists e1 e2, overlapZ (fa e1) (fs e1 * 16) (fa e2) (fs e2 * 16) /\
-    ft e1 = T_IBB /\ ft e2 = T_IBB /\ no_ibb_overlap dsz_real [e1; e2] = pass.
-Proof. exact NoIBBOverlap_wrap64_refuted. Qed.
-Print Assumptions C05_NoIBBOverlap_wrap64_refuted.
+(** the former witness of C05-FIT-overlap-wrap64: nested modules crossing 2^64 do not pass *)
+Theorem C05_NoIBBOverlap_wrap64 : forall mem,
+  no_ibb_overlap (dsz mem) [(7, 18446744073709551584, 4, 256); (7, 18446744073709551600, 1, 256)] = ierr.
+Proof. exact NoIBBOverlap_wrap64_rejected. Qed.
+Print Assumptions C05_NoIBBOverlap_wrap64.
 
-(** NoBIOSACMOverlap as it is: never a rejection — a pass or a panic. *)
-Theorem C05_NoBIOSACMOverlap_code_never_rejects : forall l,
-  no_acm_overlap dsz_real l = pass \/ no_acm_overlap dsz_real l = VPanic.
-Proof. exact NoBIOSACMOverlap_never_rejects. Qed.
-Print Assumptions C05_NoBIOSACMOverlap_code_never_rejects.
+(** NoBIOSACMOverlap never panics (former finding C05-FIT-ACM-size-panic). *)
+Theorem C05_NoBIOSACMOverlap_total : forall mem l, no_acm_overlap (dsz mem) l <> VPanic.
+Proof. exact NoBIOSACMOverlap_total. Qed.
+Print Assumptions C05_NoBIOSACMOverlap_total.
 
-(** finding C05-FIT-ACM-size-panic: a healthy FIT gets no verdict from either ACM check *)
-Theorem C05_ACMChecks_healthy_refuted :
-  exists ibb acm, ft ibb = T_IBB /\ ft acm = T_SACM /\
-    ~ overlapZ (fa ibb) (fs ibb * 16) (fa acm) (fs acm * 16) /\
-    no_acm_overlap dsz_real [ibb; acm] = VPanic /\ acm_below_4g dsz_real [ibb; acm] = VPanic.
-Proof. exact NoBIOSACMOverlap_healthy_refuted. Qed.
-Print Assumptions C05_ACMChecks_healthy_refuted.
+(** Sound for every table and EVERY ORDER of the entries (former finding
+    C05-NoBIOSACMOverlap-order): a pass means that the size of every startup ACM could be read
+    from its module header ([dsz mem acm = Ok s]) and no ACM shares a byte with a BIOS startup
+    module. *)
+Theorem C05_NoBIOSACMOverlap_sound : forall mem l, typed_table l ->
+  no_acm_overlap (dsz mem) l = pass ->
+  forall ibb acm, In ibb l -> In acm l -> ft ibb = T_IBB -> ft acm = T_SACM ->
+    exists s, dsz mem acm = Ok s /\ ~ overlapZ (fa ibb) (fs ibb * 16) (fa acm) s.
+Proof. exact NoBIOSACMOverlap_sound. Qed.
+Print Assumptions C05_NoBIOSACMOverlap_sound.
 
-(** PARTIAL: with getFITDataSize repaired ([dsz_total]), no 2^64 wrap, and only for an ACM
-    listed AFTER the module (see [C05_NoBIOSACMOverlap_order_refuted]). *)
-Theorem C05_NoBIOSACMOverlap_sound_partial : forall l, all_iv_ok l ->
-  no_acm_overlap dsz_total l = pass ->
-  forall l1 e1 l2 e2 l3, l = l1 ++ e1 :: l2 ++ e2 :: l3 ->
-    ft e1 = T_IBB -> ft e2 = T_SACM ->
-    ~ overlapZ (fa e1) (fs e1 * 16) (fa e2) (fs e2 * 16).
-Proof. exact NoBIOSACMOverlap_sound_partial. Qed.
-Print Assumptions C05_NoBIOSACMOverlap_sound_partial.
+(** Exact.  PARTIAL: ranges non-empty and inside the address space, every ACM header readable. *)
+Theorem C05_NoBIOSACMOverlap_exact_partial : forall mem l, typed_table l ->
+  (forall e, In e l -> ft e = T_IBB -> 0 < fs e /\ fa e + fs e * 16 < W64) ->
+  (forall e, In e l -> ft e = T_SACM -> exists s, dsz mem e = Ok s /\ 0 < s) ->
+  (no_acm_overlap (dsz mem) l = pass <->
+   forall ibb acm s, In ibb l -> In acm l -> ft ibb = T_IBB -> ft acm = T_SACM -> dsz mem acm = Ok s ->
+     ~ overlapZ (fa ibb) (fs ibb * 16) (fa acm) s).
+Proof. exact NoBIOSACMOverlap_exact_partial. Qed.
+Print Assumptions C05_NoBIOSACMOverlap_exact_partial.
 
-(** finding C05-NoBIOSACMOverlap-order *)
-Theorem C05_NoBIOSACMOverlap_order_refuted :
-  exists acm ibb, ft acm = T_SACM /\ ft ibb = T_IBB /\
-    overlapZ (fa ibb) (fs ibb * 16) (fa acm) (fs acm * 16) /\
-    no_acm_overlap dsz_total [acm; ibb] = pass /\ no_acm_overlap dsz_real [acm; ibb] = pass.
-Proof. exact NoBIOSACMOverlap_order_refuted. Qed.
-Print Assumptions C05_NoBIOSACMOverlap_order_refuted.
+(** the former witness of C05-NoBIOSACMOverlap-order: an ACM listed before the module that contains it *)
+Theorem C05_NoBIOSACMOverlap_order :
+  no_acm_overlap (dsz [(4293984280, 16384)]) [(2, 4293984256, 0, 256); (7, 4293918720, 65536, 256)] = fail.
+Proof. exact NoBIOSACMOverlap_order_rejected. Qed.
+Print Assumptions C05_NoBIOSACMOverlap_order.
 
-(** BIOSACMIsBelow4G as it is: a verdict only for tables without ACM entry. *)
-Theorem C05_BIOSACMIsBelow4G_code : forall l,
-  (count_type T_SACM l = 0 -> acm_below_4g dsz_real l = pass) /\
-  (count_type T_SACM l <> 0 -> acm_below_4g dsz_real l = VPanic).
-Proof. exact BIOSACMIsBelow4G_real. Qed.
-Print Assumptions C05_BIOSACMIsBelow4G_code.
+(** the former witness of C05-FIT-ACM-size-panic: the healthy FIT gets a pass from both ACM checks *)
+Theorem C05_ACMChecks_healthy :
+  let mem := [(4292870168, 16384)] in
+  let l := [(7, 4293918720, 65536, 256); (2, 4292870144, 0, 256)] in
+  no_acm_overlap (dsz mem) l = pass /\ acm_below_4g (dsz mem) l = pass /\
+  dsz mem (2, 4292870144, 0, 256) = Ok 65536.
+Proof. exact ACMChecks_healthy_accepted. Qed.
+Print Assumptions C05_ACMChecks_healthy.
 
-(** PARTIAL: with getFITDataSize repaired the comparison is exact. *)
-Theorem C05_BIOSACMIsBelow4G_exact_partial : forall l,
-  (forall e, In e l -> 0 <= fa e /\ 0 <= fs e /\ fa e + fs e * 16 < W64) ->
-  (acm_below_4g dsz_total l = pass <->
-   forall e, In e l -> ft e = T_SACM -> fa e + fs e * 16 <= FOUR_GIB).
-Proof. exact BIOSACMIsBelow4G_total_exact. Qed.
-Print Assumptions C05_BIOSACMIsBelow4G_exact_partial.
+(** BIOSACMIsBelow4G: exact for every table - a pass iff every startup ACM has a readable size
+    and ends at or below 4 GiB. *)
+Theorem C05_BIOSACMIsBelow4G_exact : forall mem l, typed_table l ->
+  (acm_below_4g (dsz mem) l = pass <->
+   forall e, In e l -> ft e = T_SACM -> exists s, dsz mem e = Ok s /\ fa e + s <= FOUR_GIB).
+Proof. exact BIOSACMIsBelow4G_exact. Qed.
+Print Assumptions C05_BIOSACMIsBelow4G_exact.
 
-(** IBBCoversResetVector / IBBCoversFITVector: exact for every table. *)
-Theorem C05_IBBCoversResetVector_exact : forall l, (forall e, In e l -> fent_typed e) ->
-  (ibb_covers_rv dsz_real l = pass <->
+Theorem C05_BIOSACMIsBelow4G_total : forall mem l, acm_below_4g (dsz mem) l <> VPanic.
+Proof. exact BIOSACMIsBelow4G_total. Qed.
+Print Assumptions C05_BIOSACMIsBelow4G_total.
+
+(** IBBCoversResetVector / IBBCoversFITVector / IBBCoversFIT never panic ... *)
+Theorem C05_IBBCovers_total : forall mem fitptr l,
+  ibb_covers_rv (dsz mem) l <> VPanic /\ ibb_covers_fv (dsz mem) l <> VPanic /\ ibb_covers_fit (dsz mem) fitptr l <> VPanic.
+Proof. exact IBBCovers_total. Qed.
+Print Assumptions C05_IBBCovers_total.
+
+(** ... and are sound for every table: a pass means that some BIOS startup module contains the
+    reset vector / the FIT vector / the whole FIT (its end computed without 32-bit wrap: former
+    finding C05-IBBCoversFIT-wrap32). *)
+Theorem C05_IBBCovers_sound : forall mem fitptr l, typed_table l ->
+  (ibb_covers_rv (dsz mem) l = pass ->
+     exists e, In e l /\ ft e = T_IBB /\ containsZ (fa e) (fs e * 16) RESET_VECTOR (RESET_VECTOR + 4)) /\
+  (ibb_covers_fv (dsz mem) l = pass ->
+     exists e, In e l /\ ft e = T_IBB /\ containsZ (fa e) (fs e * 16) FIT_VECTOR (FIT_VECTOR + 4)) /\
+  (ibb_covers_fit (dsz mem) fitptr l = pass ->
+     exists e, In e l /\ ft e = T_IBB /\ containsZ (fa e) (fs e * 16) fitptr (fitptr + Z.of_nat (length l) * 16)).
+Proof. exact IBBCovers_sound. Qed.
+Print Assumptions C05_IBBCovers_sound.
+
+(** Exact.  PARTIAL: no BIOS startup module leaves the 64-bit address space (such an entry, met
+    before the covering module, is an internal error). *)
+Theorem C05_IBBCoversResetVector_exact_partial : forall mem l, typed_table l -> ibbs_in_space l ->
+  (ibb_covers_rv (dsz mem) l = pass <->
    exists e, In e l /\ ft e = T_IBB /\ containsZ (fa e) (fs e * 16) RESET_VECTOR (RESET_VECTOR + 4)).
-Proof. exact IBBCoversResetVector_exact. Qed.
-Print Assumptions C05_IBBCoversResetVector_exact.
+Proof. exact IBBCoversResetVector_exact_partial. Qed.
+Print Assumptions C05_IBBCoversResetVector_exact_partial.
 
-Theorem C05_IBBCoversFITVector_exact : forall l, (forall e, In e l -> fent_typed e) ->
-  (ibb_covers_fv dsz_real l = pass <->
+Theorem C05_IBBCoversFITVector_exact_partial : forall mem l, typed_table l -> ibbs_in_space l ->
+  (ibb_covers_fv (dsz mem) l = pass <->
    exists e, In e l /\ ft e = T_IBB /\ containsZ (fa e) (fs e * 16) FIT_VECTOR (FIT_VECTOR + 4)).
-Proof. exact IBBCoversFITVector_exact. Qed.
-Print Assumptions C05_IBBCoversFITVector_exact.
+Proof. exact IBBCoversFITVector_exact_partial. Qed.
+Print Assumptions C05_IBBCoversFITVector_exact_partial.
 
-(** IBBCoversFIT.  PARTIAL: the table ends below 4 GiB (what HasFIT establishes). *)
-Theorem C05_IBBCoversFIT_partial : forall fitptr l, 0 <= fitptr ->
-  fitptr + Z.of_nat (length l) * 16 < W32 ->
-  (forall e, In e l -> fent_typed e) ->
-  (ibb_covers_fit dsz_real fitptr l = pass <->
+(** IBBCoversFIT: also for a table that reaches or crosses 4 GiB. *)
+Theorem C05_IBBCoversFIT_exact_partial : forall mem fitptr l, typed_table l -> ibbs_in_space l ->
+  (ibb_covers_fit (dsz mem) fitptr l = pass <->
    exists e, In e l /\ ft e = T_IBB /\
      containsZ (fa e) (fs e * 16) fitptr (fitptr + Z.of_nat (length l) * 16)).
-Proof. exact IBBCoversFIT_partial. Qed.
-Print Assumptions C05_IBBCoversFIT_partial.
+Proof. exact IBBCoversFIT_exact_partial. Qed.
+Print Assumptions C05_IBBCoversFIT_exact_partial.
 
-(** finding C05-IBBCoversFIT-wrap32 *)
-Theorem C05_IBBCoversFIT_wrap32_refuted :
-  exists fitptr l, (forall e, In e l -> fent_typed e) /\ 0 <= fitptr < W32 /\
-    ibb_covers_fit dsz_real fitptr l = pass /\
-    ~ exists e, In e l /\ ft e = T_IBB /\
-        containsZ (fa e) (fs e * 16) fitptr (fitptr + Z.of_nat (length l) * 16).
-Proof. exact IBBCoversFIT_wrap32_refuted. Qed.
-Print Assumptions C05_IBBCoversFIT_wrap32_refuted.
+(** the former witness of C05-IBBCoversFIT-wrap32 *)
+Theorem C05_IBBCoversFIT_wrap32 : forall mem,
+  ibb_covers_fit (dsz mem) 4294967280 [(0, 2314885530818453087, 2, 256); (7, 4294901760, 16, 256)] = fail.
+Proof. exact IBBCoversFIT_wrap32_rejected. Qed.
+Print Assumptions C05_IBBCoversFIT_wrap32.
 
 (** presence checks, FIT pointer and table bounds: exact *)
 Theorem C05_HasEntry_exact : forall t l,
@@ -190,46 +214,30 @@ Print Assumptions C05_HasFIT_exact.
 
 (** * 2. TXT heap / SINIT / DPR containment, SMRR / TSEG *)
 
-(** TXTHeapSpaceValid.  PARTIAL: heap base + size does not exceed 32 bits. *)
-Theorem C05_HeapValid_partial : forall hb hs sb ss mj,
+(** TXTHeapSpaceValid: exact for every register image (former finding C05-heap-wrap32). *)
+Theorem C05_HeapValid_exact : forall hb hs sb ss mj,
   u32 hb -> u32 hs -> u32 sb -> u32 ss -> u32 mj ->
-  hb + hs < W32 ->
   (heap_valid hb hs sb ss mj = pass <-> heap_spec hb hs sb ss).
-Proof. exact HeapValid_partial. Qed.
-Print Assumptions C05_HeapValid_partial.
+Proof. exact HeapValid_exact. Qed.
+Print Assumptions C05_HeapValid_exact.
 
-(** finding C05-heap-wrap32 *)
-Theorem C05_HeapValid_wrap32_refuted :
-  exists hb hs sb ss mj, u32 hb /\ u32 hs /\ u32 sb /\ u32 ss /\ u32 mj /\
-    heap_valid hb hs sb ss mj = pass /\ ~ heap_spec hb hs sb ss.
-Proof. exact HeapValid_wrap32_refuted. Qed.
-Print Assumptions C05_HeapValid_wrap32_refuted.
+(** the former witness: a heap ending at 4 GiB + 1 MiB *)
+Theorem C05_HeapValid_wrap32 : heap_valid 4293918720 2097152 0 65536 0 = fail.
+Proof. exact HeapValid_wrap32_rejected. Qed.
+Print Assumptions C05_HeapValid_wrap32.
 
-(** why: the "above 4 GiB" guards compare a uint32 sum with 2^32 and can never fire *)
-Theorem C05_HeapValid_guards_vacuous : forall a b, (wrap32 (a + b) >=? FOUR_GIB) = false.
-Proof. exact HeapValid_guards_vacuous. Qed.
-Print Assumptions C05_HeapValid_guards_vacuous.
-
-(** TXTMemoryIsDPR.  PARTIAL: none of the uint32 sums / differences wraps. *)
-Theorem C05_DPR_partial : forall dpr hb hs sb ss,
+(** TXTMemoryIsDPR: exact for every register image (former finding C05-DPR-wrap32). *)
+Theorem C05_DPR_exact : forall dpr hb hs sb ss,
   u32 hb -> u32 hs -> u32 sb -> u32 ss ->
-  let S := bits dpr 4 255 * MiB in
-  let L := (bits dpr 20 4095 + 1) * MiB in
-  bits dpr 20 4095 < 4095 ->
-  S <= L ->
-  hb + hs < W32 -> sb + ss < W32 ->
-  2 * MiB + hs + ss <= L ->
-  (memory_is_dpr dpr hb hs sb ss = pass <-> dpr_spec S L hb hs sb ss).
-Proof. exact DPR_partial. Qed.
-Print Assumptions C05_DPR_partial.
+  (memory_is_dpr dpr hb hs sb ss = pass <->
+   dpr_spec (bits dpr 4 255 * MiB) ((bits dpr 20 4095 + 1) * MiB) hb hs sb ss).
+Proof. exact DPR_exact. Qed.
+Print Assumptions C05_DPR_exact.
 
-(** finding C05-DPR-wrap32 *)
-Theorem C05_DPR_underflow_refuted :
-  exists dpr hb hs sb ss, u32 hb /\ u32 hs /\ u32 sb /\ u32 ss /\
-    memory_is_dpr dpr hb hs sb ss = pass /\
-    ~ dpr_spec (bits dpr 4 255 * MiB) ((bits dpr 20 4095 + 1) * MiB) hb hs sb ss.
-Proof. exact DPR_underflow_refuted. Qed.
-Print Assumptions C05_DPR_underflow_refuted.
+(** the former witness: no room for a 2 MiB MLE *)
+Theorem C05_DPR_underflow : memory_is_dpr 2146435121 2144337920 3145728 0 4026531840 = fail.
+Proof. exact DPR_underflow_rejected. Qed.
+Print Assumptions C05_DPR_underflow.
 
 (** ValidSMRR as a function of (SMRR MSRs, TSEG base, TSEG limit): exact against the interval
     reading.  PARTIAL: contiguous mask of granularity 2^k (the only masks with an interval
@@ -237,7 +245,7 @@ Print Assumptions C05_DPR_underflow_refuted.
 Theorem C05_ValidSMRR_interval_partial : forall pbm pmm tb tl k,
   12 <= k < 32 -> u32 tb -> u32 tl ->
   let PB := bits pbm 12 1048575 * 4096 in
-  bits pmm 12 1048575 * 4096 = W32 - 2 ^ k ->
+  bits pmm 12 1048575 * 4096 = W32 - 2 ^ k ->     (* contiguous mask *)
   (valid_smrr pbm pmm tb tl = pass <->
    PB <> 0 /\ PB mod 2 ^ k = 0 /\ tb = PB /\ tl = PB + 2 ^ k /\ tl <> U32MAX).
 Proof. exact ValidSMRR_interval_partial. Qed.
@@ -257,7 +265,7 @@ Proof. exact ValidSMRR_failclosed. Qed.
 Print Assumptions C05_ValidSMRR_failclosed.
 
 (** finding C05-ValidSMRR-tseglimit-lib: on every host bridge but Broadwell-DE the library
-    reports TSEG limit 0, so no configuration — a correct one included — is accepted *)
+    reports TSEG limit 0, so no configuration - a correct one included - is accepted *)
 Theorem C05_ValidSMRR_accepts_refuted : forall pbm pmm tb raw,
   valid_smrr pbm pmm tb (tseg_limit false raw) <> pass.
 Proof. exact ValidSMRR_sandy_never_passes. Qed.
@@ -265,64 +273,56 @@ Print Assumptions C05_ValidSMRR_accepts_refuted.
 
 (** * 3. Attribute and capability checks: accepted bit patterns *)
 
-(** checkTPM2NVAttr as it is: everything but the all-zero word (finding C05-NVAttr-precedence) *)
-Theorem C05_NVAttr_code : forall mask want opt,
-  nvattr mask want opt = true <-> mask <> 0 \/ Z.odd (Z.lor want opt) = false.
-Proof. exact NVAttr_real. Qed.
-Print Assumptions C05_NVAttr_code.
+(** checkTPM2NVAttr: exact (former finding C05-NVAttr-precedence) *)
+Theorem C05_NVAttr_exact : forall mask want opt,
+  nvattr mask want opt = true <-> nvattr_spec mask want opt.
+Proof. exact NVAttr_exact. Qed.
+Print Assumptions C05_NVAttr_exact.
 
-Theorem C05_NVAttr_exact_refuted :
-  (exists mask want opt, 0 <= mask /\ nvattr mask want opt = true /\ ~ nvattr_spec mask want opt) /\
-  (exists mask want opt, 0 <= mask /\ nvattr mask want opt = false /\ nvattr_spec mask want opt).
-Proof. exact NVAttr_exact_refuted. Qed.
-Print Assumptions C05_NVAttr_exact_refuted.
+(** PS / AUX / PO index, TPM 2.0: never a panic (former finding C05-NVIndex-nameAlg-cryptoHash) *)
+Theorem C05_NVIndex20_total : forall which blob, nv_index_config20 which blob <> VPanic.
+Proof. exact NVIndex20_total. Qed.
+Print Assumptions C05_NVIndex20_total.
 
-(** PS / AUX index, TPM 2.0: a correctly configured index is accepted.
-    PARTIAL: name algorithm SHA256/384/512 (for SHA1 and SM3 the Go hash table gives another
-    size, finding C05-NVIndex-nameAlg-cryptoHash). *)
-Theorem C05_NVIndex20_accepts_partial : forall which blob namealg attrs h ds,
-  which = 0 \/ which = 1 ->
-  parse_nvpub blob = Some (namealg, attrs, h, ds) ->
-  namealg = 11 \/ namealg = 12 \/ namealg = 13 ->
-  0 <= attrs -> nv20_spec which namealg attrs ds ->
-  nv_index_config20 which blob = pass.
-Proof. exact NVIndex20_accepts_partial. Qed.
-Print Assumptions C05_NVIndex20_accepts_partial.
+(** Exact against Table J-2 for all three indices (PO included: former finding
+    C05-POIndexConfig-never-passes).  PARTIAL: the name algorithm is not SM3-256. *)
+Theorem C05_NVIndex20_exact_partial : forall which blob namealg attrs h ds,
+  parse_nvpub blob = Some (namealg, attrs, h, ds) -> namealg <> 18 ->
+  (nv_index_config20 which blob = pass <-> nv20_spec which namealg attrs ds).
+Proof. exact NVIndex20_exact_partial. Qed.
+Print Assumptions C05_NVIndex20_exact_partial.
 
-(** what PSIndexConfig / AUXIndexConfig accept *)
-Theorem C05_NVIndex20_code : forall which blob, which = 0 \/ which = 1 ->
-  (nv_index_config20 which blob = pass <->
-   exists namealg attrs h ds hsz, parse_nvpub blob = Some (namealg, attrs, h, ds) /\
-     nvattr attrs (idx_want which) ATTR_WRITTEN = true /\
-     go_hash_size' namealg = Some hsz /\ ds = idx_size which hsz).
-Proof. exact NVIndex20_real. Qed.
-Print Assumptions C05_NVIndex20_code.
+(** for every name algorithm: a pass means the specified pattern *)
+Theorem C05_NVIndex20_sound : forall which blob,
+  nv_index_config20 which blob = pass ->
+  exists namealg attrs h ds, parse_nvpub blob = Some (namealg, attrs, h, ds) /\ nv20_spec which namealg attrs ds.
+Proof. exact NVIndex20_sound. Qed.
+Print Assumptions C05_NVIndex20_sound.
 
-(** findings C05-NVAttr-precedence, C05-NVIndex-nameAlg-cryptoHash *)
-Theorem C05_NVIndex20_exact_refuted :
-  (exists blob namealg attrs h ds, parse_nvpub blob = Some (namealg, attrs, h, ds) /\
-     nv_index_config20 0 blob = pass /\ ~ nv20_spec 0 namealg attrs ds) /\
-  (exists blob namealg attrs h ds, parse_nvpub blob = Some (namealg, attrs, h, ds) /\
-     nv20_spec 0 namealg attrs ds /\ nv_index_config20 0 blob = fail) /\
-  (exists blob, nv_index_config20 0 blob = VPanic).
-Proof. exact NVIndex20_refuted. Qed.
-Print Assumptions C05_NVIndex20_exact_refuted.
+(** the former witnesses of C05-NVAttr-precedence, C05-NVIndex-nameAlg-cryptoHash (SHA1, 0x27)
+    and C05-POIndexConfig-never-passes *)
+Theorem C05_NVIndex20_former_witnesses :
+  nv_index_config20 0 (ps_blob [0; 0; 0; 1] 11 70) = fail /\
+  nv_index_config20 0 (ps_blob [98; 4; 4; 8] 4 58) = pass /\
+  nv_index_config20 0 (ps_blob [98; 4; 4; 8] 39 70) = fail /\
+  nv_index_config20 2 (ps_blob [2; 4; 0; 10] 11 70) = pass.
+Proof. exact NVIndex20_former_witnesses. Qed.
+Print Assumptions C05_NVIndex20_former_witnesses.
 
-(** finding C05-POIndexConfig-never-passes *)
-Theorem C05_POIndexConfig_accepts_refuted :
-  (forall blob, nv_index_config20 2 blob <> pass) /\
-  (forall p1 p2 size attrs rst wst wd, nv_index_config12 2 p1 p2 size attrs rst wst wd <> pass) /\
-  (exists blob namealg attrs h ds, parse_nvpub blob = Some (namealg, attrs, h, ds) /\
-     nv20_spec 2 namealg attrs ds).
-Proof. exact POIndexConfig_never_passes_refuted. Qed.
-Print Assumptions C05_POIndexConfig_accepts_refuted.
+(** finding C05-NVIndex-SM3-lib *)
+Theorem C05_NVIndex20_sm3_refuted :
+  exists blob namealg attrs h ds, parse_nvpub blob = Some (namealg, attrs, h, ds) /\
+    nv20_spec 0 namealg attrs ds /\ nv_index_config20 0 blob = fail.
+Proof. exact NVIndex20_sm3_refuted. Qed.
+Print Assumptions C05_NVIndex20_sm3_refuted.
 
-(** TPM 1.2 PS / AUX index (Table J-1): exact *)
+(** TPM 1.2 PS / AUX / PO index (Table J-1): exact *)
 Theorem C05_NVIndex12_exact : forall which p1 p2 size attrs rst wst wd,
   (nv_index_config12 0 p1 p2 size attrs rst wst wd = pass <->
      p1 = 0 /\ p2 = 0 /\ size = 54 /\ attrs = NVPER_WRITESTCLEAR /\ rst = false /\ wst = false /\ wd = true) /\
   (nv_index_config12 1 p1 p2 size attrs rst wst wd = pass <->
      p1 = 0 /\ p2 = 0 /\ size = 64 /\ attrs = 0 /\ rst = false /\ wst = false /\ wd = false) /\
+  (nv_index_config12 2 p1 p2 size attrs rst wst wd = pass <-> size = 54 /\ attrs = 0) /\
   (nv_index_config12 which p1 p2 size attrs rst wst wd = warn ->
      (which = 0 \/ which = 1) /\ p1 = 0 /\ p2 = 0 /\ rst = false /\ wst = false).
 Proof. exact NVIndex12_exact. Qed.
@@ -342,37 +342,41 @@ Theorem C05_LCP1_exact : forall version hashalg ptype sinitmin polctrl maxsinit 
 Proof. exact LCP1_exact. Qed.
 Print Assumptions C05_LCP1_exact.
 
-(** LCP_POLICY2 (version >= 3.0): exact for PolicyType ANY; every other type is a nil
-    dereference as soon as version and hash algorithm are right (finding C05-LCP2-nil-deref) *)
-Theorem C05_LCP2_code : forall preset version hashalg ptype hmask smask,
+(** LCP_POLICY2 (version >= 3.0): exact, never a panic (former finding C05-LCP2-nil-deref) *)
+Theorem C05_LCP2_exact : forall preset version hashalg ptype hmask smask,
   (lcp_valid2 preset version hashalg ptype hmask smask = pass <->
-   lcp2_spec preset version hashalg ptype hmask smask /\ ptype = 1) /\
-  (lcp_valid2 preset version hashalg ptype hmask smask = VPanic <->
-   LCP_V3 <= version /\ hashalg = preset /\ ptype <> 1).
-Proof. exact LCP2_real. Qed.
-Print Assumptions C05_LCP2_code.
+   lcp2_spec preset version hashalg ptype hmask smask) /\
+  lcp_valid2 preset version hashalg ptype hmask smask <> VPanic.
+Proof. exact LCP2_exact. Qed.
+Print Assumptions C05_LCP2_exact.
 
-Theorem C05_LCP2_list_refuted :
-  exists preset version hashalg ptype hmask smask,
-    lcp2_spec preset version hashalg ptype hmask smask /\
-    lcp_valid2 preset version hashalg ptype hmask smask = VPanic.
-Proof. exact LCP2_list_refuted. Qed.
-Print Assumptions C05_LCP2_list_refuted.
+(** the former witness: a v3.0 SHA256 LIST policy *)
+Theorem C05_LCP2_list : lcp_valid2 11 768 11 0 8 8 = pass.
+Proof. exact LCP2_list_accepted. Qed.
+Print Assumptions C05_LCP2_list.
 
-(** SINITACMcomplyTPMSpec as it is: decided by the module that FOLLOWS the SINIT ACM in the
-    SINIT region ([caps2]), accepted iff its capabilities word is non-zero *)
+(** SINITACMcomplyTPMSpec as it is: decided by the SINIT ACM itself (former finding
+    C05-sinitACM-double-parse), accepted iff its capabilities word is non-zero *)
 Theorem C05_SINITTPMSpec_code : forall caps1 caps2 tpm present,
   sinit_tpm_spec caps1 caps2 tpm present = pass <->
-  exists c, caps2 = Some c /\ c <> 0 /\ present = true /\ (tpm = 1 \/ tpm = 2).
+  caps1 <> 0 /\ present = true /\ (tpm = 1 \/ tpm = 2).
 Proof. exact SINITTPMSpec_real. Qed.
 Print Assumptions C05_SINITTPMSpec_code.
 
-(** findings C05-sinitACM-double-parse, C05-SINITTPMSpec-precedence *)
+(** a SINIT ACM that lists the family of the TPM in use is accepted *)
+Theorem C05_SINITTPMSpec_accepts : forall caps1 caps2 tpm present,
+  sinit_spec caps1 tpm present -> sinit_tpm_spec caps1 caps2 tpm present = pass.
+Proof. exact SINITTPMSpec_accepts. Qed.
+Print Assumptions C05_SINITTPMSpec_accepts.
+
+Theorem C05_SINITTPMSpec_first_module : forall caps1 caps2 caps2' tpm present,
+  sinit_tpm_spec caps1 caps2 tpm present = sinit_tpm_spec caps1 caps2' tpm present.
+Proof. exact SINITTPMSpec_first_module. Qed.
+Print Assumptions C05_SINITTPMSpec_first_module.
+
+(** finding C05-SINITTPMSpec-precedence *)
 Theorem C05_SINITTPMSpec_exact_refuted :
-  (forall caps tpm present, sinit_tpm_spec caps None tpm present = fail) /\
-  (exists caps tpm, sinit_spec caps tpm true) /\
-  (exists caps tpm, sinit_tpm_spec caps (Some caps) tpm true = pass /\ ~ sinit_spec caps tpm true) /\
-  (exists caps1 caps2 tpm, sinit_spec caps1 tpm true /\ sinit_tpm_spec caps1 (Some caps2) tpm true = fail).
+  exists caps tpm, sinit_tpm_spec caps None tpm true = pass /\ ~ sinit_spec caps tpm true.
 Proof. exact SINITTPMSpec_refuted. Qed.
 Print Assumptions C05_SINITTPMSpec_exact_refuted.
 
@@ -401,17 +405,15 @@ Theorem C05_SmallChecks_exact :
 Proof. exact SmallChecks_exact. Qed.
 Print Assumptions C05_SmallChecks_exact.
 
-(** IA32DebugInterfaceLockedDisabled as it is, and the finding C05-DebugInterface-inverted *)
-Theorem C05_DebugInterface_code : forall ecx msr,
-  debug_locked ecx msr = pass <->
-  bit ecx 11 = true \/ (bit msr 31 = false /\ bit msr 30 = true /\ bit msr 0 = false).
-Proof. exact DebugInterface_real. Qed.
-Print Assumptions C05_DebugInterface_code.
+(** IA32DebugInterfaceLockedDisabled: exact (former finding C05-DebugInterface-inverted) *)
+Theorem C05_DebugInterface_exact : forall ecx msr,
+  debug_locked ecx msr = pass <-> debug_spec ecx msr.
+Proof. exact DebugInterface_exact. Qed.
+Print Assumptions C05_DebugInterface_exact.
 
-Theorem C05_DebugInterface_inverted_refuted :
-  exists ecx msr, debug_locked ecx msr = pass /\ ~ debug_spec ecx msr.
-Proof. exact DebugInterface_inverted_refuted. Qed.
-Print Assumptions C05_DebugInterface_inverted_refuted.
+Theorem C05_DebugInterface_enabled : debug_locked 2048 1 = fail.
+Proof. exact DebugInterface_enabled_rejected. Qed.
+Print Assumptions C05_DebugInterface_enabled.
 
 (** * 4. Boot Guard provisioning and manifest-security verdicts never report success when a
       named disqualifying condition holds *)
@@ -452,37 +454,34 @@ Theorem C05_ValidateME_exact : forall v f bpmsvn kmsvn kmid,
 Proof. exact ValidateME_exact. Qed.
 Print Assumptions C05_ValidateME_exact.
 
-(** finding C05-BG-unknown-version-failopen: for a BootGuard value whose version is neither
-    1.0 nor 2.0 every manifest verdict is "success" *)
-Theorem C05_BG_unknown_version_failclosed_refuted : forall v, v <> 1 -> v <> 2 ->
-  (forall f a b c, validate_me v f a b c = good) /\
-  (forall nse algs lsize sig, bpm_crypto v nse algs lsize sig = good) /\
-  (forall a1 algs, km_crypto v a1 algs = good) /\
-  (forall nse flags pbet base0 vtdbar txte nseg, sane_bpm v nse flags pbet base0 vtdbar txte nseg = good) /\
-  (forall nse flags pbet base0 vtdbar txte nseg, strict_sane_bpm v nse flags pbet base0 vtdbar txte nseg = good).
-Proof. exact BG_unknown_version_failopen_refuted. Qed.
-Print Assumptions C05_BG_unknown_version_failclosed_refuted.
+(** for a BootGuard value whose version is neither 1.0 nor 2.0 no manifest verdict is a success
+    (former finding C05-BG-unknown-version-failopen) *)
+Theorem C05_BG_unknown_version_failclosed : forall v, v <> 1 -> v <> 2 ->
+  (forall f a b c, validate_me v f a b c = bad) /\
+  (forall nse algs lsize sig, bpm_crypto v nse algs lsize sig = bad) /\
+  (forall a1 algs, km_crypto v a1 algs = bad) /\
+  (forall nse flags pbet base0 vtdbar txte nseg, sane_bpm v nse flags pbet base0 vtdbar txte nseg = bad) /\
+  (forall nse flags pbet base0 vtdbar txte nseg, strict_sane_bpm v nse flags pbet base0 vtdbar txte nseg = bad).
+Proof. exact BG_unknown_version_failclosed. Qed.
+Print Assumptions C05_BG_unknown_version_failclosed.
 
 (** BPMCryptoSecure, Boot Guard 1.0: exact *)
-Theorem C05_BPMCrypto_v1_exact : forall nse algs lsize sig, nse <> 0 ->
-  (bpm_crypto 1 nse algs lsize sig = good <-> insecure_alg (hd 0 algs) = false /\ insecure_alg sig = false).
+Theorem C05_BPMCrypto_v1_exact : forall nse algs lsize sig,
+  (bpm_crypto 1 nse algs lsize sig = good <->
+   nse <> 0 /\ insecure_alg (hd 0 algs) = false /\ insecure_alg sig = false).
 Proof. exact BPMCrypto_v1_exact. Qed.
 Print Assumptions C05_BPMCrypto_v1_exact.
 
-(** CBnT.  PARTIAL (visible in the statement): the digest list is only looked at when
-    DigestList.Size < 2 — a byte size that is never below 4 *)
-Theorem C05_BPMCrypto_v2_failclosed_partial : forall nse algs lsize sig, nse <> 0 ->
+(** CBnT: exact (former finding C05-BPMCrypto-sha1-digestlist) *)
+Theorem C05_BPMCrypto_v2_exact : forall nse algs lsize sig,
   (bpm_crypto 2 nse algs lsize sig = good <->
-   insecure_alg sig = false /\ (lsize < 2 -> forall a, In a algs -> insecure_alg a = false)).
-Proof. exact BPMCrypto_v2_real. Qed.
-Print Assumptions C05_BPMCrypto_v2_failclosed_partial.
+   nse <> 0 /\ insecure_alg sig = false /\ (forall a, algs = [a] -> insecure_alg a = false)).
+Proof. exact BPMCrypto_v2_exact. Qed.
+Print Assumptions C05_BPMCrypto_v2_exact.
 
-(** finding C05-BPMCrypto-sha1-digestlist *)
-Theorem C05_BPMCrypto_v2_sha1_refuted :
-  exists algs lsize sig, 4 <= lsize /\ insecure_alg (hd 0 algs) = true /\
-    bpm_crypto 2 1 algs lsize sig = good.
-Proof. exact BPMCrypto_v2_sha1_refuted. Qed.
-Print Assumptions C05_BPMCrypto_v2_sha1_refuted.
+Theorem C05_BPMCrypto_v2_sha1 : bpm_crypto 2 1 [4] 28 11 = bad.
+Proof. exact BPMCrypto_v2_sha1_rejected. Qed.
+Print Assumptions C05_BPMCrypto_v2_sha1.
 
 Theorem C05_KMCrypto_exact : forall a1 algs,
   (km_crypto 1 a1 algs = good <-> insecure_alg a1 = false /\ insecure_alg (hd 0 algs) = false) /\
@@ -490,11 +489,17 @@ Theorem C05_KMCrypto_exact : forall a1 algs,
 Proof. exact KMCrypto_exact. Qed.
 Print Assumptions C05_KMCrypto_exact.
 
-(** SaneBPMSecurityProps / StrictSaneBPMSecurityProps *)
+(** SaneBPMSecurityProps / StrictSaneBPMSecurityProps: a verdict for every manifest (former
+    finding C05-SaneBPM-nil-TXTE) *)
+Theorem C05_SaneBPM_total : forall (strict : bool) v nse flags pbet base0 vtdbar txte nseg,
+  let r := (if strict then strict_sane_bpm else sane_bpm) v nse flags pbet base0 vtdbar txte nseg in
+  r = good \/ r = bad.
+Proof. exact SaneBPM_total. Qed.
+Print Assumptions C05_SaneBPM_total.
+
 Theorem C05_SaneBPM_failclosed : forall v nse flags pbet base0 vtdbar txte nseg,
-  v = 1 \/ v = 2 ->
   sane_bpm v nse flags pbet base0 vtdbar txte nseg = good ->
-  bpm_ok v flags pbet base0 vtdbar txte nseg.
+  (v = 1 \/ v = 2) /\ nse <> 0 /\ bpm_ok v flags pbet base0 vtdbar txte nseg.
 Proof. exact SaneBPM_failclosed. Qed.
 Print Assumptions C05_SaneBPM_failclosed.
 
@@ -506,41 +511,44 @@ Proof. exact SaneBPM_accepts. Qed.
 Print Assumptions C05_SaneBPM_accepts.
 
 Theorem C05_StrictSaneBPM_failclosed : forall v nse flags pbet base0 vtdbar txte nseg,
-  v = 1 \/ v = 2 ->
   strict_sane_bpm v nse flags pbet base0 vtdbar txte nseg = good ->
+  (v = 1 \/ v = 2) /\ nse <> 0 /\
   bpm_ok v flags pbet base0 vtdbar txte nseg /\ bit flags 3 = true /\
   (v = 2 -> exists cf, txte = Some cf /\ bits cf 5 3 = 2).
 Proof. exact StrictSaneBPM_failclosed. Qed.
 Print Assumptions C05_StrictSaneBPM_failclosed.
 
-(** finding C05-SaneBPM-nil-TXTE: no verdict for an empty SE list or a CBnT BPM without TXT
-    element *)
-Theorem C05_SaneBPM_total_refuted :
-  (forall v flags pbet base0 vtdbar txte nseg, v = 1 \/ v = 2 ->
-     sane_bpm v 0 flags pbet base0 vtdbar txte nseg = VPanic) /\
-  (exists flags pbet nseg, bit flags 0 = true /\ bit flags 2 = true /\ Z.land pbet 15 <> 0 /\ 1 <= nseg /\
-     sane_bpm 2 1 flags pbet 0 0 None nseg = VPanic).
-Proof. exact SaneBPM_panics_refuted. Qed.
-Print Assumptions C05_SaneBPM_total_refuted.
+Theorem C05_SaneBPM_former_witnesses :
+  (forall v flags pbet base0 vtdbar txte nseg, sane_bpm v 0 flags pbet base0 vtdbar txte nseg = bad) /\
+  sane_bpm 2 1 13 15 0 0 None 1 = bad /\ strict_sane_bpm 2 1 13 15 0 0 None 1 = bad.
+Proof. exact SaneBPM_former_witnesses. Qed.
+Print Assumptions C05_SaneBPM_former_witnesses.
 
 (** * Examples: the hypotheses are satisfiable, correctly configured objects are accepted *)
 
+(** header, microcode, startup ACM (64 KiB at 0xFFE40000, size read from its header), two
+    adjacent BIOS startup modules up to 4 GiB *)
 Definition ex_fit : list fent :=
-  [(0, 2314885530818453087, 5, 256); (1, 4292870144, 0, 256);
-   (7, 4293918720, 28672, 256); (7, 4294443008, 32768, 256)].
+  [(0, 2314885530818453087, 5, 256); (1, 4292870144, 0, 256); (2, 4293132288, 0, 256);
+   (7, 4293918720, 32768, 256); (7, 4294443008, 32768, 256)].
+Definition ex_mem : physmem := [(4293132312, 16384)].
 
-Example C05_ex_fit : all_iv_ok ex_fit /\ (forall e, In e ex_fit -> fent_typed e) /\
-  no_ibb_overlap dsz_real ex_fit = pass /\ ibb_covers_rv dsz_real ex_fit = pass /\
-  ibb_covers_fv dsz_real ex_fit = pass /\ has_type T_IBB ex_fit = pass /\
-  apart (7, 4293918720, 28672, 256) (7, 4294443008, 32768, 256).
+Example C05_ex_fit : typed_table ex_fit /\ ibbs_in_space ex_fit /\
+  (forall e, In e ex_fit -> ft e = T_IBB -> 0 < fs e /\ fa e + fs e * 16 < W64) /\
+  (forall e, In e ex_fit -> ft e = T_SACM -> exists s, dsz ex_mem e = Ok s /\ 0 < s) /\
+  no_ibb_overlap (dsz ex_mem) ex_fit = pass /\ no_acm_overlap (dsz ex_mem) ex_fit = pass /\
+  acm_below_4g (dsz ex_mem) ex_fit = pass /\ ibb_covers_rv (dsz ex_mem) ex_fit = pass /\
+  ibb_covers_fv (dsz ex_mem) ex_fit = pass /\ has_type T_IBB ex_fit = pass.
 Proof.
-  split; [|split; [|repeat split; try (vm_compute; reflexivity); vm_compute; congruence]].
-  - intros e [<-|[<-|[<-|[<-|[]]]]]; unfold ibb_iv_ok, W64; cbn; lia.
-  - intros e [<-|[<-|[<-|[<-|[]]]]]; unfold fent_typed, W64; cbn; lia.
+  split; [|split; [|split; [|split; [|repeat split; vm_compute; reflexivity]]]].
+  - intros e [<-|[<-|[<-|[<-|[<-|[]]]]]]; unfold fent_typed, W64; cbn; lia.
+  - intros e [<-|[<-|[<-|[<-|[<-|[]]]]]] T; try discriminate T; unfold W64; cbn; lia.
+  - intros e [<-|[<-|[<-|[<-|[<-|[]]]]]] T; try discriminate T; unfold W64; cbn; lia.
+  - intros e [<-|[<-|[<-|[<-|[<-|[]]]]]] T; try discriminate T. exists 65536. split; [vm_compute; reflexivity|lia].
 Qed.
 
 Example C05_ex_covers_fit :
-  ibb_covers_fit dsz_real 4294770688 [(0, 2314885530818453087, 2, 256); (7, 4294443008, 32768, 256)] = pass.
+  ibb_covers_fit (dsz []) 4294770688 [(0, 2314885530818453087, 2, 256); (7, 4294443008, 32768, 256)] = pass.
 Proof. vm_compute. reflexivity. Qed.
 
 Example C05_ex_heap : heap_spec 2065694720 917504 2065629184 65536 /\
@@ -565,8 +573,12 @@ Proof.
   split; [reflexivity|]. exists 32. split; reflexivity.
 Qed.
 
-Example C05_ex_lcp : lcp_valid1 514 0 1 1 2 0 false = pass /\ lcp_valid2 11 768 11 1 8 8 = pass.
-Proof. split; vm_compute; reflexivity. Qed.
+Example C05_ex_lcp : lcp_valid1 514 0 1 1 2 0 false = pass /\ lcp_valid2 11 768 11 1 8 8 = pass /\
+  lcp2_spec 11 768 11 0 8 8.
+Proof. split; [|split]; try (vm_compute; reflexivity). unfold lcp2_spec, LCP_V3. lia. Qed.
+
+Example C05_ex_sinit : sinit_spec 17 2 true /\ sinit_tpm_spec 17 None 2 true = pass.
+Proof. split; [|reflexivity]. split; [reflexivity|]. right. split; [reflexivity|]. vm_compute. discriminate. Qed.
 
 (** HFSTS6 = FPF lock | immediate shutdown | protect BIOS, MSR 13Ah = capability | verified | FACB *)
 Example C05_ex_me : sane_me_raw true 2 1073742024 4294967376 = good /\
@@ -579,7 +591,8 @@ Proof.
 Qed.
 
 Example C05_ex_bpm : bpm_ok 2 13 15 0 0 (Some 64) 1 /\ sane_bpm 2 1 13 15 0 0 (Some 64) 1 = good /\
-  strict_sane_bpm 2 1 13 15 0 0 (Some 64) 1 = good /\ bpm_crypto 2 1 [11] 36 11 = good /\ km_crypto 2 11 [11; 12] = good.
+  strict_sane_bpm 2 1 13 15 0 0 (Some 64) 1 = good /\ bpm_crypto 2 1 [11] 36 11 = good /\
+  bpm_crypto 2 1 [4; 11] 64 11 = good /\ km_crypto 2 11 [11; 12] = good.
 Proof.
   split; [|repeat split; vm_compute; reflexivity].
   unfold bpm_ok. repeat split; try (vm_compute; congruence).
